@@ -60,7 +60,9 @@ struct TickitWatch {
 
     struct {
       pid_t pid;
-      int wstatus; /* in case of pre-exited process */
+      int wstatus;  /* in case of pre-exited process */
+      bool exited;  /* the process had already exited when the watch was registered */
+      unsigned long born; /* value of t->sigwalk_seq when the watch was registered */
     } process;
   };
 };
@@ -93,7 +95,10 @@ struct Tickit {
 
   /* the signal watch tickit_evloop_invoke_sigwatches() will look at next */
   TickitWatch *next_sigwatch;
-  /* number of walks over the signal watches begun so far; a watch registered
+  /* the process watch on_sigchld() / process_notify() will look at next; moved
+   * by tickit_watch_cancel() off a watch it frees, like next_sigwatch */
+  TickitWatch *next_procwatch;
+  /* number of walks over the signal / process watches begun so far; a watch registered
    * while a walk is under way was not watching when the signal was delivered
    * and is not invoked by that walk, wherever in the list the running watch is */
   unsigned long sigwalk_seq;
@@ -227,6 +232,7 @@ Tickit *tickit_build(const struct TickitBuilder *builder)
   t->sigchldwatch = NULL;
   t->next_sigwatch = NULL;
   t->sigwalk_seq = 0;
+  t->next_procwatch = NULL;
 
   t->done_setup = false;
 
@@ -682,9 +688,16 @@ void *tickit_watch_signal(Tickit *t, int signum, TickitBindFlags flags, TickitCa
 
 static int on_sigchld(Tickit *t, TickitEventFlags flags, void *info, void *data)
 {
-  TickitWatch *this, *next;
-  for(this = t->processes; this; this = next) {
-    next = this->next;
+  /* A callback may cancel any process watch, its own and the next one
+   * included; the cursor is kept in t so that tickit_watch_cancel() can move
+   * it off a watch it frees */
+  unsigned long seq = ++t->sigwalk_seq;
+  TickitWatch *this;
+  for(this = t->processes; this; this = t->next_procwatch) {
+    t->next_procwatch = this->next;
+
+    if(this->process.exited || !(this->process.born < seq))
+      continue; /* process_notify() deals with it / registered during this walk */
 
     TickitProcessWatchInfo info;
     if(waitpid(this->process.pid, &info.wstatus, WNOHANG) <= 0)
@@ -698,9 +711,19 @@ static int on_sigchld(Tickit *t, TickitEventFlags flags, void *info, void *data)
 
 static int process_notify(Tickit *t, TickitEventFlags flags, void *_info, void *data)
 {
-  TickitWatch *watch = data;
+  /* the watches of processes that had already exited when they were
+   * registered; they are ordinary members of t->processes, so a cancelled one
+   * is not found here and a remaining one is seen by tickit_destroy() */
+  unsigned long seq = ++t->sigwalk_seq;
+  TickitWatch *this;
+  for(this = t->processes; this; this = t->next_procwatch) {
+    t->next_procwatch = this->next;
 
-  tickit_evloop_invoke_processwatch(watch, TICKIT_EV_FIRE, watch->process.wstatus);
+    if(!this->process.exited || !(this->process.born < seq))
+      continue; /* a watch registered during this walk has its own deferred callback */
+
+    tickit_evloop_invoke_processwatch(this, TICKIT_EV_FIRE, this->process.wstatus);
+  }
 
   return 0;
 }
@@ -720,6 +743,8 @@ void *tickit_watch_process(Tickit *t, pid_t pid, TickitBindFlags flags, TickitCa
   watch->user = user;
 
   watch->process.pid = pid;
+  watch->process.exited = false;
+  watch->process.born = t->sigwalk_seq;
 
   if(!t->evhooks->process ||
       !(*t->evhooks->process)(t->evdata, pid, flags, watch)) {
@@ -729,11 +754,12 @@ void *tickit_watch_process(Tickit *t, pid_t pid, TickitBindFlags flags, TickitCa
     if(waitpid(pid, &watch->process.wstatus, WNOHANG) > 0) {
       /* Process already exited, so SIGCHLD won't see it. We can't invoke
        * callback immediately as user will be expecting it to only be called via
-       * tickit_run(). We'll install a later handler for it
+       * tickit_run(). We'll install a later handler for it; the watch joins
+       * the list like any other so that it can be cancelled and is destroyed
+       * with the instance
        */
-      tickit_watch_later(t, 0, process_notify, watch);
-
-      return watch;
+      watch->process.exited = true;
+      tickit_watch_later(t, 0, process_notify, NULL);
     }
   }
 
@@ -750,6 +776,8 @@ static bool cancel_watch_in(Tickit *t, TickitWatch **thisp, TickitWatch *watch)
       *thisp = this->next;
       if(t->next_sigwatch == this)
         t->next_sigwatch = this->next;
+      if(t->next_procwatch == this)
+        t->next_procwatch = this->next;
 
       if(this->flags & TICKIT_BIND_UNBIND)
         (*this->fn)(t, TICKIT_EV_UNBIND, NULL, this->user);
